@@ -84,7 +84,8 @@ var c05Corpus = []corpusEntry{
 	}},
 	{"parameters-in-odd-shapes", true, func(id string) (*Response, string) {
 		d := noteDoc(id, "")
-		return HTTPResponse("HTTP/1.0 200 OK", []string{apTypesOdd[len(id)%len(apTypesOdd)]}, d, "\r\n"), d
+		// (several Content-Type lines: every one of them names a tolerated type)
+		return HTTPResponse("HTTP/1.0 200 OK", []string{apTypesOdd[0], apTypesOdd[3], apTypesOdd[2]}, d, "\r\n"), d
 	}},
 	{"429-with-a-date-to-come-back-at", false, func(id string) (*Response, string) {
 		return HTTPResponse("HTTP/1.1 429 Too Many Requests", []string{apTypes[0], "Retry-After: Fri, 31 Dec 2100 23:59:59 GMT"}, noteDoc(id, ""), "\r\n"), ""
